@@ -5,7 +5,7 @@
 // (sem<t>) are recognised in the log: the relaxed store of `true` that a thread issues right before it takes the
 // monitor mutex is its node's my_is_in_list; the semaphore is at a fixed offset from it.
 // usage: slp <rand|dfs|replay> <arg> [maxruns]; stdin: one "prog op ..." line per thread
-// ops: lock try_lock unlock [lock_shared try_lock_shared unlock_shared upgrade downgrade]
+// ops: lock try_lock unlock [lock_shared try_lock_shared unlock_shared upgrade downgrade await_reader]
 // Per run: run / eff / e <tid> <kind> <var> <order> <a> <b> <ok> / res / mon / sched / end
 #include "tbb/address_waiter.cpp"
 #ifdef RWM
@@ -32,10 +32,12 @@ static std::vector<std::vector<std::string>> g_progs;
 static int g_raw = 0;
 static std::atomic<int> g_dummy{0};     // `work`: 12 writes to an unrelated atomic (keeps spinning waiters iterating until they go to sleep)
 
+static int g_in_lock_shared = 0;      // threads inside m.lock_shared() right now (harness-level, plain: one controlled thread runs at a time)
 static bool run_once(verif::Schedule& sch, int run_idx, bool print) {
     static MUTEX* mp = new MUTEX;          // one mutex object for the whole process: its monitor slot never changes
     MUTEX& m = *mp;
     Ghost g;
+    g_in_lock_shared = 0;
     size_t T = g_progs.size();
     std::vector<std::vector<std::string>> eff(T);
     std::vector<std::vector<int>> res(T);
@@ -59,7 +61,7 @@ static bool run_once(verif::Schedule& sch, int run_idx, bool print) {
             else if (op == "try_lock" && held == NONE) { eff[t].push_back(op); bool b = m.try_lock(); res[t].push_back(b); if (b) acquire_w(); }
             else if (op == "unlock" && held == WR) { eff[t].push_back(op); cs_w(); g.W = 0; held = NONE; m.unlock(); }
 #ifdef RWM
-            else if (op == "lock_shared" && held == NONE) { eff[t].push_back(op); m.lock_shared(); acquire_r(); }
+            else if (op == "lock_shared" && held == NONE) { eff[t].push_back(op); ++g_in_lock_shared; m.lock_shared(); --g_in_lock_shared; acquire_r(); }
             else if (op == "try_lock_shared" && held == NONE) { eff[t].push_back(op); bool b = m.try_lock_shared(); res[t].push_back(b); if (b) acquire_r(); }
             else if (op == "unlock_shared" && held == RD) { eff[t].push_back(op); cs_r(); g.R--; held = NONE; m.unlock_shared(); }
             else if (op == "upgrade" && held == RD) {
@@ -73,6 +75,9 @@ static bool run_once(verif::Schedule& sch, int run_idx, bool print) {
                 acquire_w();
             }
             else if (op == "downgrade" && held == WR) { eff[t].push_back(op); cs_w(); g.W = 0; g.R++; held = RD; m.downgrade(); cs_r(); }
+            // harness-level: keep the shared lock until another thread holds it too (nothing but the downgrade itself will wake a reader that
+            // went to sleep behind the writer); not a mutex operation, not part of the effective program
+            else if (op == "await_reader" && held == RD) { while (g.R < 2 && g_in_lock_shared > 0) { g_dummy.load(std::memory_order_relaxed); _mm_pause(); } }    // (only readers that are already inside lock_shared() are waited for)
 #endif
         }
         if (held == WR) { eff[t].push_back("unlock"); cs_w(); g.W = 0; m.unlock(); }
